@@ -15,7 +15,7 @@ from .common import COMPONENTS_BASE, run_sim, new_sim, finish_outcome, bounded_s
 
 PID = "C03"
 LEVEL = "exploration"
-BUDGET = {"quick": 40000, "thorough": 1000000}
+BUDGET = {"quick": 200000, "thorough": 4000000}
 RULE = (
     "each run draws 1..2 scenarios (tool of C01 or aggregation of C02 incl. groupby-free parameters, items with "
     "ties / unorderable / unhashable members) and executes each twice in one simulated loop: baseline (lists + "
